@@ -42,6 +42,9 @@ def random_universe(rnd, npaths, nvers):
             for q, ms in paths.items():
                 if q != p and rnd.random() < 0.45:
                     rs.append("%s/%d" % (q, rnd.choice(ms)))
+            if len(ns) > 1 and rnd.random() < 0.2:
+                # a version that requires another version of its own project
+                rs.append("%s/%d" % (p, rnd.choice([m for m in ns if m != n])))
             rnd.shuffle(rs)
             req["%s/%d" % (p, n)] = rs
     return req, paths
@@ -67,6 +70,8 @@ def rich_universe(rnd):
             for q, ms in paths.items():
                 if q != p and rnd.random() < 0.4:
                     rs.append("%s/%d" % (q, rnd.choice(ms)))
+            if len(ns) > 1 and rnd.random() < 0.15:
+                rs.append("%s/%d" % (p, rnd.choice([m for m in ns if m != n])))
             rnd.shuffle(rs)
             req["%s/%d" % (p, n)] = rs
     return req, paths
